@@ -213,9 +213,24 @@ let loc2_case r k =
       [ h; string_of_int j; hexf repl ]
   end
 
+(* systematic truncation / single-byte damage of harvested inputs: the harness runs every prefix, resp. every single-bit flip
+   and boundary byte value over the head and tail of the input, inside one case *)
+let sweep_case r k =
+  let e = entries.(k mod Array.length entries) in
+  match Hashtbl.find_opt corpus e with
+  | None -> ()
+  | Some arr when Array.length arr = 0 -> ()
+  | Some arr ->
+    let (h, p, origin) = arr.((k / Array.length entries) mod Array.length arr) in
+    if String.length h <= 2 * 20000 then begin
+      let mode = if (k / Array.length entries) mod 2 = 0 then "prefix" else "flip" in
+      emit ~fn:"NoPanicSweep" ~tag:(e ^ ".sweep_" ^ mode ^ "." ^ origin) ~s:"ok" ~m:"ok" [ e; h; string_of_int p; mode ]
+    end
+
 let gen seed n =
   for k = 0 to n - 1 do gen_case (rng_for seed k) k done;
   for k = 0 to n / 3 do corpus_case (rng_for seed (7000000 + k)) k done;
+  for k = 0 to n / 12 do sweep_case (rng_for seed (8000000 + k)) k done;
   for k = 0 to n / 30 do vl_case (rng_for seed (9000000 + k)) k done;
   for k = 0 to n / 10 do loc_case (rng_for seed (5000000 + k)) k done;
   for k = 0 to n / 45 do loc2_case (rng_for seed (6000000 + k)) k done
